@@ -50,6 +50,7 @@ theorem tree_sorted_step (s : AnState) (op : Op) (h : TreeSorted s.tree) : TreeS
   | endan => simp [step, TreeSorted]
   | restart => simpa [step] using h
   | hput tag ref b => simpa [step] using h
+  | hdel tag ref => simp only [step]; split <;> exact h
   | fileinfo =>
     simp only [step]
     exact loadType_sorted _ _ (loadType_sorted _ _ (loadType_sorted _ _ (loadType_sorted _ _ h)))
@@ -76,7 +77,12 @@ theorem tree_sorted_step (s : AnState) (op : Op) (h : TreeSorted s.tree) : TreeS
   | dfget t etag eref maxlen => simp only [step]; split; exact h; split; exact h; split <;> exact h
   | dfgetlen t etag eref => simp only [step]; split; exact h; split; exact h; split <;> exact h
   | dfaddf t annref text => simp only [step]; split <;> exact h
-  | dfgetf t i maxlen => simp only [step]; split; exact h; split <;> exact h
+  | dfflen t first =>
+    simp only [step]; split; exact h; split; exact h; split; exact h; split; exact h; rw [setNext_tree]; exact h
+  | dffget t first maxlen =>
+    simp only [step]; split; exact h; split; exact h; split; exact h; split; exact h
+    split <;> (rw [setNext_tree]; exact h)
+  | dflablist tag listsize maxlen startpos => simp only [step]; split <;> exact h
 
 /-- the entries `ANannlist`/`ANnumann` select from a tree -/
 def annlistOf (tr : List (Nat × Entry)) (t etag eref : Nat) : List (Nat × Entry) :=
@@ -109,14 +115,15 @@ example : (step { tree := [(AN_CREATE_KEY 0 3, ⟨3, 720, 1⟩), (AN_CREATE_KEY 
 /-! ## rewrite -/
 
 /-- **rewriting an annotation keeps its identity**: `ANwriteann` on an existing annotation (any new length) leaves the
-    trees (hence type, ref, id, target) unchanged, leaves every other element untouched, and the new text is what
+    trees (hence type, ref, id, target) unchanged, leaves every other element untouched (every real tag/ref: a DD with
+    tag `DFTAG_NULL` is a free DD, which a NEW annotation's element may take), and the new text is what
     `ANreadann` (with a large enough buffer) and `ANannlen` report. -/
 theorem rewrite_keeps_identity (s : AnState) (t annref tag : Nat) (e : Entry) (text : Bytes)
     (ht : tagOfType t = some tag) (hf : treeFind (AN_CREATE_KEY t annref) s.tree = some e)
     (h1 : e.elmtag < 65536) (h2 : e.elmref < 65536) (hne : text ≠ []) :
     let s' := (step s (.writeann t annref text)).1
     s'.tree = s.tree ∧ s'.loaded = s.loaded ∧
-    (∀ k, k ≠ (tag, annref) → elemLook k s'.elems = elemLook k s.elems) ∧
+    (∀ k, k.1 ≠ DFTAG_NULL → k ≠ (tag, annref) → elemLook k s'.elems = elemLook k s.elems) ∧
     (elemLook (tag, annref) s'.elems).bind (decodeAnn t (tag, annref)) =
       some (if isDataType t then (e.elmtag, e.elmref) else (tag, annref), text) ∧
     (step s' (.annlen t annref)).2 = .int text.length ∧
@@ -124,21 +131,22 @@ theorem rewrite_keeps_identity (s : AnState) (t annref tag : Nat) (e : Entry) (t
   have hs : (step s (.writeann t annref text)).1 =
       { s with elems := elemPut (tag, annref) (encodeAnn t (e.elmtag, e.elmref) text) s.elems } := by
     simp [step, ht, hf, hne]
+  have hnn : (tag, annref).1 ≠ DFTAG_NULL := tagOfType_ne_null ht
   simp only
   rw [hs]
   refine ⟨rfl, rfl, ?_, ?_, ?_, ?_⟩
-  · intro k hk
-    simp only [elemLook_elemPut, hk, if_false]
-  · simp only [elemLook_elemPut, if_true, Option.bind_some]
+  · intro k hkn hk
+    simp only [elemLook_elemPut _ _ _ _ hkn, hk, if_false]
+  · simp only [elemLook_elemPut _ _ _ _ hnn, if_true, Option.bind_some]
     exact decode_encode t (tag, annref) (e.elmtag, e.elmref) text h1 h2
-  · simp only [step, ht, elemLook_elemPut, if_true, encodeAnn]
+  · simp only [step, ht, elemLook_elemPut _ _ _ _ hnn, if_true, encodeAnn]
     by_cases hd : isDataType t = true
     · simp [hd, u16]; omega
     · simp [hd]
   · intro maxlen hm
     · have he := hne
       have hpos : 0 < text.length := List.length_pos_iff.mpr he
-      simp only [step, ht, elemLook_elemPut, if_true, encodeAnn, readSpan]
+      simp only [step, ht, elemLook_elemPut _ _ _ _ hnn, if_true, encodeAnn, readSpan]
       by_cases hd : isDataType t = true
       · by_cases hl : isLabelType t = true
         · have m1 : min text.length (maxlen - 1) = text.length := by omega
@@ -220,7 +228,7 @@ open file answers from the previous session's tree of that type: it misses what 
 /-- **`ANend` forgets all four types; `ANstart` adds nothing**: whatever the session held (any tree, any set of loaded
     types), afterwards no type counts as loaded and no tree entry is left — for every type, the file descriptions included -/
 theorem endan_forgets_every_type (s : AnState) :
-    step s .endan = ({ elems := s.elems, tree := [], loaded := [] }, .ok) ∧
+    step s .endan = ({ s with tree := [], loaded := [] }, .ok) ∧
     (∀ t, countType (step s .endan).1 t = 0 ∧ (step s .endan).1.loaded.contains t = false) ∧
     step (step s .endan).1 .restart = ((step s .endan).1, .ok) :=
   ⟨rfl, fun _ => ⟨rfl, rfl⟩, rfl⟩
@@ -233,9 +241,9 @@ theorem next_session_lists_the_file (s : AnState) (hok : FileOk s.elems) (t : Na
     let s0 := (step (step s .endan).1 .restart).1
     (ofType t (loadType s0 t).tree).Perm (fileEntries s.elems t) ∧
     countType (loadType s0 t) t = (fileEntries s.elems t).length := by
-  have h := (loadType_perm { elems := s.elems, tree := [], loaded := [] } t ht rfl hok (by simp)).1
+  have h := (loadType_perm { s with tree := [], loaded := [] } t ht rfl hok (by simp)).1
   simp only [List.nil_append] at h
-  have hp : (ofType t (loadType { elems := s.elems, tree := [], loaded := [] } t).tree).Perm (fileEntries s.elems t) := by
+  have hp : (ofType t (loadType { s with tree := [], loaded := [] } t).tree).Perm (fileEntries s.elems t) := by
     have := h.filter (fun p => AN_KEY2TYPE p.1 == t)
     rwa [filter_type_fileEntries s.elems hok t t ht, if_pos rfl] at this
   exact ⟨hp, hp.length_eq⟩
@@ -248,7 +256,7 @@ theorem next_session_fileinfo_counts_the_file (s : AnState) (hok : FileOk s.elem
       .nats [(fileEntries s.elems AN_FILE_LABEL).length, (fileEntries s.elems AN_FILE_DESC).length,
              (fileEntries s.elems AN_DATA_LABEL).length, (fileEntries s.elems AN_DATA_DESC).length] := by
   have ty := fileEntries_type s.elems hok
-  obtain ⟨p1, l1, e1⟩ := load_next { elems := s.elems, tree := [], loaded := [] } AN_FILE_LABEL (by decide) [] rfl rfl hok []
+  obtain ⟨p1, l1, e1⟩ := load_next { s with tree := [], loaded := [] } AN_FILE_LABEL (by decide) [] rfl rfl hok []
     (List.Perm.refl _) (by simp)
   obtain ⟨p2, l2, e2⟩ := load_next _ AN_FILE_DESC (by decide) _ l1 (by decide) (e1 ▸ hok) _ p1 (by
     intro x hx
@@ -270,7 +278,7 @@ theorem next_session_fileinfo_counts_the_file (s : AnState) (hok : FileOk s.elem
     · rw [ty AN_FILE_DESC (by decide) x hx]; decide
     · rw [ty AN_DATA_LABEL (by decide) x hx]; decide)
   rw [e3] at p4
-  have cnt : ∀ t', countType (loadType (loadType (loadType (loadType { elems := s.elems, tree := [], loaded := [] }
+  have cnt : ∀ t', countType (loadType (loadType (loadType (loadType { s with tree := [], loaded := [] }
       AN_FILE_LABEL) AN_FILE_DESC) AN_DATA_LABEL) AN_DATA_DESC) t' =
       ((if AN_FILE_LABEL = t' then fileEntries s.elems AN_FILE_LABEL else []) ++
        (if AN_FILE_DESC = t' then fileEntries s.elems AN_FILE_DESC else []) ++
@@ -306,5 +314,103 @@ example : FileOk [((101, 1), [65]), ((100, 1), [66]), ((101, 2), [67])] := by
   intro p hp
   simp only [List.mem_cons, List.not_mem_nil, or_false] at hp
   rcases hp with rfl | rfl | rfl <;> decide
+
+/-! ## enumerations whatever the reference numbers are
+
+A file written once through `ANcreatef`/`DFANaddfid` has file labels with refs 1, 2, 3, … in DD order.  Nothing makes that
+last: `Hdeldd` (the only deletion HDF4 offers) leaves gaps and free DDs, `Htagnewref` hands a deleted ref out again, the
+new element takes the first free DD — in front of older ones — and any writer may choose its refs (`Hnewref`, explicit
+refs).  The statements below are about EVERY DD list: no assumption on which refs are present or in which order. -/
+
+/-- **`Hdeldd` deletes exactly one annotation**: the tag/ref is gone, every other element is what and where it was (the
+    elements of every tag keep their DD order), the DD list stays well formed, no tree is touched. -/
+theorem hdel_deletes_exactly (s : AnState) (tag ref : Nat) (hok : FileOk s.elems) (hn : tag ≠ DFTAG_NULL)
+    (hex : (elemLook (tag, ref) s.elems).isSome) :
+    let s' := (step s (.hdel tag ref)).1
+    (step s (.hdel tag ref)).2 = .ok ∧ FileOk s'.elems ∧ s'.tree = s.tree ∧
+    elemLook (tag, ref) s'.elems = none ∧
+    (∀ k, k.1 ≠ DFTAG_NULL → k ≠ (tag, ref) → elemLook k s'.elems = elemLook k s.elems) ∧
+    ∀ T, T ≠ DFTAG_NULL →
+      s'.elems.filter (fun p => p.1.1 == T) = (s.elems.filter (fun p => p.1.1 == T)).filter (fun p => p.1 != (tag, ref)) := by
+  have hnone : ¬ (elemLook (tag, ref) s.elems).isNone := by
+    cases h : elemLook (tag, ref) s.elems with
+    | none => simp [h] at hex
+    | some b => simp
+  have hs : step s (.hdel tag ref) = ({ s with elems := elemDel (tag, ref) s.elems }, .ok) := by
+    simp only [step]; rw [if_neg (by simp only [hn, false_or]; exact hnone)]
+  simp only
+  rw [hs]
+  refine ⟨rfl, fileOk_elemDel _ hok, rfl, ?_, ?_, ?_⟩
+  · simpa using elemLook_elemDel (tag, ref) (tag, ref) s.elems hok.1 hn hn
+  · intro k hk hne
+    simpa [hne] using elemLook_elemDel (tag, ref) k s.elems hok.1 hn hk
+  · intro T hT
+    exact filter_elemDel (tag, ref) s.elems hok.1 hn T hT
+
+/-- **the `DFANgetfidlen`/`DFANgetfid` walk (file labels) and the `DFANgetfdslen`/`DFANgetfds` walk (file descriptions)
+    list exactly the file annotations that exist** — each once, in DD order, with its length and its text (clipped to
+    `maxlen - 1`), and then the walk ENDS (the result has as many entries as the file has annotations of the type, however
+    long the loop is allowed to run) — for EVERY well-formed DD list: any refs (65535 included), gaps, any order, any other
+    elements and free DDs in between, and whatever `Next_label_ref`/`Next_desc_ref`/`Label_walk_done`/`Desc_walk_done`
+    held before (`s` is arbitrary; `hpos`: 0 is not a reference number, `HTPcreate` refuses it).
+    History: before /repo 358eba8 the end of the walk was encoded in `Next_???_ref` itself (ref of the last annotation in
+    DD order + 1, mod 2¹⁶) and this theorem needed the hypothesis that this marker is neither 0 nor the ref of an
+    annotation of the type; without it the walk went round for ever (finding `dfan-walk-endless`; the two files of
+    `dfan_walk_ends_*` below were the counter-examples `dfan_walk_endless_live_ref` / `dfan_walk_endless_wildcard`). -/
+theorem dfan_walk_lists_the_file (s : AnState) (t T : Nat) (ht : t = AN_FILE_LABEL ∨ t = AN_FILE_DESC)
+    (hT : tagOfType t = some T) (hok : FileOk s.elems) (hpos : ∀ p ∈ s.elems, p.1.1 = T → p.1.2 ≠ 0)
+    (maxlen fuel : Nat) (hf : (s.elems.filter (fun p => p.1.1 == T)).length < fuel) :
+    dfWalk t maxlen fuel s 1 = (s.elems.filter (fun p => p.1.1 == T)).map (walkItem maxlen) := by
+  have hd : isDataType t = false := by rcases ht with rfl | rfl <;> decide
+  have h := dfWalk_from t T maxlen hT hd s.elems hok.1 hpos _ 0 s 1 fuel rfl (by simp) hf (fun _ => rfl)
+    (fun h => absurd rfl h)
+  simpa using h
+
+/-- with a buffer larger than the text the walk reports the whole text -/
+theorem walkItem_full (maxlen : Nat) (p : (Nat × Nat) × Bytes) (h : p.2.length < maxlen) :
+    walkItem maxlen p = ((p.2.length : Int), .bytes p.2) := by
+  have : min (min p.2.length maxlen) (maxlen - 1) = p.2.length := by omega
+  simp [walkItem, clipF, this]
+
+/-- the hypotheses are satisfiable and the statement bites: file labels with refs 5, 9, 7 in DD order (sparse, not
+    ascending), a free DD and other elements in between, stale walk state (marked done by a walk of another file); the
+    walk lists the three and ends.  After `Hdeldd` of the middle one it lists the two that are left, the next `AN`
+    session counts two, and a new label (ref 6) takes the free DD in front of label 7. -/
+example :
+    let s : AnState := { elems := [((30, 1), [1]), ((100, 5), [65]), ((1, 0), []), ((100, 9), [66, 67]), ((101, 2), [70]), ((100, 7), [68])],
+                         nextLab := 9, nextDesc := 3, labDone := true }
+    let s' := (step s (.hdel 100 9)).1
+    dfWalk 2 64 10 s 1 = [(1, .bytes [65]), (2, .bytes [66, 67]), (1, .bytes [68])] ∧
+    dfWalk 2 64 10 s' 1 = [(1, .bytes [65]), (1, .bytes [68])] ∧
+    (step (step s' .start).1 .fileinfo).2 = .nats [2, 1, 0, 0] ∧
+    (step s' (.hput 100 6 [71])).1.elems.map (·.1) = [(30, 1), (100, 5), (100, 6), (1, 0), (101, 2), (100, 7)] := by
+  decide
+
+example :
+    let E : List ((Nat × Nat) × Bytes) := [((30, 1), [1]), ((100, 5), [65]), ((1, 0), []), ((100, 9), [66, 67]), ((101, 2), [70]), ((100, 7), [68])]
+    FileOk E ∧ (∀ p ∈ E, p.1.1 = 100 → p.1.2 ≠ 0) := ⟨⟨by decide, by decide⟩, by decide⟩
+
+/-- **refs out of DD order**: two file labels whose DD order is ref 2, ref 1 — what `DFANaddfid` ×2, `Hdeldd` of the
+    first, another object taking the free DD, `DFANaddfid` produce.  The walk reports the two and ends (before /repo
+    358eba8 the marker after ref 1 was 2, a live ref, and the loop reported the two labels again and again). -/
+theorem dfan_walk_ends_refs_out_of_order :
+    let s : AnState := { elems := [((30, 1), [1]), ((1000, 1), [120]), ((100, 2), [66]), ((100, 1), [67])] }
+    dfWalk 2 64 7 s 1 = [(1, .bytes [66]), (1, .bytes [67])] := by
+  decide
+
+/-- **last ref 65535**: the walk ends (before /repo 358eba8 the marker wrapped to 0 = `DFREF_WILDCARD` and the walk
+    started again) -/
+theorem dfan_walk_ends_ref_65535 :
+    let s : AnState := { elems := [((101, 7), [65]), ((101, 65535), [66])] }
+    dfWalk 3 64 5 s 1 = [(1, .bytes [65]), (1, .bytes [66])] := by
+  decide
+
+/-- **`DFANlablist` with room for the terminating NUL only** lists the refs and empty labels: no text byte is read
+    (before /repo 380b3fd the whole label was written into the caller's buffer — finding `dfan-lablist-overrun`) -/
+theorem lablist_maxlen1_reads_nothing :
+    let s : AnState := { elems := [((1000, 1), [111]), ((1000, 2), [111]), ((104, 1), [3, 232, 0, 1, 65, 66, 67]), ((104, 2), [3, 232, 0, 2, 68])] }
+    (step s (.dflablist 1000 2 1 1)).2 = .lablist [1, 2] [[], []] ∧
+    (step s (.dflablist 1000 2 3 1)).2 = .lablist [1, 2] [[65, 66], [68]] := by
+  decide
 
 end H4.Props.C11
